@@ -14,8 +14,8 @@ ALL_PROPERTIES = ["C%02d" % i for i in range(1, 21)]
 
 CHECKS = {
     "C02": {
-        "level": "model_checking", "variants": ["main"], "shards": 16, "deadline_quick": 110, "deadline_thorough": 1800,
-        "engine": "E-SEQ (time cache) + E-WORLD (+ E-SCHED)",
+        "level": "model_checking", "variants": ["main", "sched"], "shards": 16, "deadline_quick": 110, "deadline_thorough": 1800,
+        "engine": "E-SEQ (time cache) + E-WORLD + E-SCHED",
         "technique": "explicit-state model checking of the implementation: BFS by replay of the real time cache (real sweeper, virtual time) vs. an interval reference, and around one real node fed racing copies with counting, gated validators",
         "rule": WORLD_RULE,
         "level_text": "cache alone: every sequence of Add/Has/advance (delays on both sides of the TTL and of TTL+sweep) for both strategies; node: every history over copies of one message from three peers, a local publish with the same ID "
@@ -179,6 +179,19 @@ CHECKS = {
         "level_note": "in-memory tracer only (the JSON / protobuf file tracers' writer loops are not driven); DROP_RPC is counted but not matched one-to-one",
         "assumptions": COMMON_ASSUME,
         "design_ref": "DESIGN.md §5 C19",
+    },
+    "C20": {
+        "level": "model_checking", "variants": ["main", "sched"], "shards": 6, "deadline_quick": 110, "deadline_thorough": 1800,
+        "engine": "E-WORLD + E-SCHED",
+        "technique": "model checking of the implementation: (a) controlled-scheduler exploration of every interleaving of concurrent BasicSeqnoValidator calls (store Get/Put are scheduling points), "
+                     "(b) explicit-state BFS by replay around a real node with the validator installed",
+        "rule": WORLD_RULE + "; thread part: state = per-thread progress + lock model + store contents + call/return history",
+        "level_text": "threads: 2-3 concurrent validator calls for one author over seqnos {0,1,2,2,MAX}, all interleavings (preemption bound 2|3, then unbounded with state caching); "
+                      "node: every arrival order up to the depth bound of messages with seqnos {1,2,2',3,MAX,0}, absent / 3-byte / 9-byte encodings, several forwarders, 1-2 workers, a gated validator behind it, "
+                      "and replays after the seen window expired; nonce monotonicity, accepted => committed, and no penalty for ignored replays are judged",
+        "level_note": "the metadata store is an in-memory map supplied by the harness",
+        "assumptions": COMMON_ASSUME,
+        "design_ref": "DESIGN.md §5 C20",
     },
 }
 
